@@ -169,16 +169,16 @@ fn drive<F: Future>(env: &EnvRef, fut: F) -> Option<F::Output> {
 // async front-end
 // ---------------------------------------------------------------------------------------------
 
-type ADev<const P: u8, const G: i8> = async_device::Device<SimRadio<P, G>, SimTimer, SimRng, 256, 8>;
+type ADev<const P: u8, const G: i8, const N: usize> = async_device::Device<SimRadio<P, G>, SimTimer, SimRng, N, 8>;
 
-pub struct AsyncDut<const P: u8, const G: i8> {
+pub struct AsyncDut<const P: u8, const G: i8, const N: usize> {
     env: EnvRef,
-    dev: ADev<P, G>,
+    dev: ADev<P, G, N>,
     class_c: bool,
 }
 
-impl<const P: u8, const G: i8> AsyncDut<P, G> {
-    fn build(env: &EnvRef, session: Option<Session>, class_c: bool) -> ADev<P, G> {
+impl<const P: u8, const G: i8, const N: usize> AsyncDut<P, G, N> {
+    fn build(env: &EnvRef, session: Option<Session>, class_c: bool) -> ADev<P, G, N> {
         let cfg = env.borrow().cfg.clone();
         let mut dev = async_device::Device::new_with_session(
             region_config(&cfg),
@@ -216,7 +216,7 @@ impl<const P: u8, const G: i8> AsyncDut<P, G> {
     }
 }
 
-impl<const P: u8, const G: i8> Dut for AsyncDut<P, G> {
+impl<const P: u8, const G: i8, const N: usize> Dut for AsyncDut<P, G, N> {
     fn join(&mut self) -> OpResult {
         let mode = otaa_mode(&self.env.borrow().id);
         let env = self.env.clone();
@@ -606,9 +606,14 @@ pub fn make_dut(env: &EnvRef) -> Box<dyn Dut> {
         ($p:literal, $g:literal) => {
             match fe {
                 Frontend::Nb => Box::new(NbDut::<$p, $g>::new(env)) as Box<dyn Dut>,
-                _ => Box::new(AsyncDut::<$p, $g>::new(env)) as Box<dyn Dut>,
+                _ => Box::new(AsyncDut::<$p, $g, 256>::new(env)) as Box<dyn Dut>,
             }
         };
+    }
+    // a device whose radio buffer is smaller than the largest frame (board 0, async front-ends only)
+    let small = env.borrow().cfg.small_buffer;
+    if small && fe != Frontend::Nb {
+        return Box::new(AsyncDut::<14, 0, { crate::script::SMALL_N }>::new(env)) as Box<dyn Dut>;
     }
     // keep in sync with script::BOARDS
     match board {
